@@ -277,6 +277,8 @@ Section Eval.
 
   Definition from_xlib (name : string) (args : list carg) : M ovalue :=
     match xlib name args with
+    | Some (LErr t) =>
+        if sprefix "NEED:" t then (fun _ => Need (sdrop 5 t)) else fail (ELib t)
     | Some r => lift_lres r (ret None)
     | None => fail (ELib ("unmodelled:" ++ name)%string)
     end.
@@ -846,10 +848,7 @@ Section Eval.
                 | Some _ => fail (EArgType "now" i)
                 end in
               p <- opt pic 2 ;; t <- opt tz 3 ;;
-              match xlib "fromMillis" [AInt ms; p; t] with
-              | Some r => lift_lres r (ret None)
-              | None => fail (ELib "unmodelled:fromMillis")
-              end
+              from_xlib "fromMillis" [AInt ms; p; t]
         | CExt _ => fail (ELib "unmodelled:extension")
         end
     end
